@@ -8,6 +8,10 @@ INFO = {
    text="Lean 4 theorems (kernel-checked, no sorry, axioms propext/Classical.choice/Quot.sound only) that the model of BigUint add / multiply-accumulate / mul / cmp / sub equals Nat arithmetic for EVERY limb vector (any size, canonical or not); the model is tied to the Rust by a differential run on raw limb vectors through the verif-hooks feature (value + error class) with Python int arithmetic as independent search oracle. Proof is the right level because the quantifier (all operand sizes and all carry chains) is unbounded.",
    note="Trusted: Lean kernel + 3 standard axioms; hand-written model tied to code only by the correspondence run; python/Rust harness unverified. divmod/gcd/pow/BigRat/Complex layers are currently covered by correspondence + oracle only (theorems being added; see evidence.theorems for what is proved on a given run).",
    technique="Lean 4 refinement proof (BigUint -> Nat) + differential correspondence on raw limbs", ref="7/C01"),
+ "C18": dict(
+   text="Lean 4 theorems, for EVERY Unicode string: jsonDecode('\"' ++ escape s ++ '\"') = s against an RFC 8259 decoder written as the spec, escape output is printable ASCII, inline substitution reassembles to the input and every [[expr]] part carries exactly eval(expr) for an arbitrary evaluator, canonical string literals round-trip for both quote styles, and the documented escape table (decide). Tied to the Rust by differential runs: every Unicode scalar through json::escape_string (exhaustive in thorough), random mixtures, grammar-generated string literals through fend_core::evaluate, inline documents; Python json + an independent reading of the escape rules as search oracles.",
+   note="Trusted: Lean kernel + 3 axioms; the RFC 8259 decoder in Model/Json.lean as the meaning of 'valid JSON that decodes to the text' (cross-checked against Python's json on every run); hand-written models tied to the code by correspondence only; evaluation of [[expr]] itself is a parameter.",
+   technique="Lean 4 round-trip proofs (escape/decode, scanner invariant) + differential correspondence", ref="7/C18"),
 }
 def main():
     hooks = subprocess.check_output("git -C /repo log --format=%H --grep='verif-hooks' --grep='verif hooks' -i", shell=True, text=True).split()
